@@ -4,7 +4,7 @@ p="$1"; shift
 cd /verif
 git -C /repo apply "$p" || { echo "patch does not apply"; exit 3; }
 for c in "$@"; do
-  ./check "$c" --tier quick > /tmp/try_patch.$$.out 2>&1; rc=$?
+  VERIF_SCRATCH=1 ./check "$c" --tier quick > /tmp/try_patch.$$.out 2>&1; rc=$?
   echo "== $c exit=$rc  violations=$(grep -c '^VIOLATION' /tmp/try_patch.$$.out) broken=$(grep -c '^ANALYSIS-BROKEN' /tmp/try_patch.$$.out)"
   grep -v '^VIOLATION\|^KNOWN-FINDING' /tmp/try_patch.$$.out | grep "^$c \[" | head -${TRY_LINES:-4}
   grep '^ANALYSIS-BROKEN' /tmp/try_patch.$$.out | head -3
